@@ -29,10 +29,11 @@ theorem resolvePubKey_cases (cr : Crypto π σ β) (isSess : Bool) (a : Addr) (s
     · cases h
 
 theorem ante_seq_effect (cr : Crypto π σ β) (cfg : Config) (s : State π) (tx : Tx π σ) (s' : State π)
-    (hh : s.height ≠ 0) (h : ante cr cfg s tx = .ok s') : SeqEffect cr cfg tx s s' := by
+    (hh : ¬ (s.height = 0 ∧ cfg.verifyGenesis = false)) (h : ante cr cfg s tx = .ok s') :
+    SeqEffect cr cfg tx s s' := by
   obtain ⟨r0, rs, s1, r0', hp2, hR, hrest⟩ := ante_resolved cr cfg s tx s' (ante_ok_inv cr cfg s tx s' h)
-  rcases hrest with ⟨h0, _⟩ | ⟨_, hst⟩
-  · exact absurd h0 hh
+  rcases hrest with ⟨h0, h1, _⟩ | ⟨_, hst⟩
+  · exact absurd ⟨h0, h1⟩ hh
   have hrel := hp2.rel
   have haddrs : (r0' :: rs).map (·.addr) = signersOf tx.msgs := R3.addrs (fun _ _ _ h => h.1) hR
   have hnd : ((r0' :: rs).map (·.addr)).Nodup := by rw [haddrs]; exact signersOf_nodup _
@@ -152,5 +153,16 @@ theorem ante_seq_effect (cr : Crypto π σ β) (cfg : Config) (s : State π) (tx
     rcases hrel.next with h | ⟨_, h⟩
     · exact .inl h
     · exact .inr h
+
+
+/-- At height 0 without genesis signature verification the ante only moves the fee. -/
+theorem ante_genesis_skip (cr : Crypto π σ β) (cfg : Config) (s : State π) (tx : Tx π σ) (s' : State π)
+    (hh : s.height = 0 ∧ cfg.verifyGenesis = false) (h : ante cr cfg s tx = .ok s') :
+    FeeRel cfg.collector s s' := by
+  obtain ⟨r0, rs, s1, r0', hp2, _, hrest⟩ := ante_resolved cr cfg s tx s' (ante_ok_inv cr cfg s tx s' h)
+  rcases hrest with ⟨_, _, e⟩ | ⟨hn, _⟩
+  · rw [e]
+    exact hp2.rel
+  · exact absurd hh hn
 
 end GnoVerif.C15
